@@ -36,6 +36,7 @@ func C20_Jobs() []string {
 		out = append(out, "slice/"+op)
 	}
 	out = append(out, "regex/Email", "regex/UUID", "regex/URL", "regex/Match")
+	out = append(out, "bool/True", "bool/False", "bool/EQ")
 	return out
 }
 
@@ -424,5 +425,35 @@ func C20_Run(job string) {
 		c20Slice(b)
 	case "regex":
 		c20Regex(b)
+	case "bool":
+		c20Bool(b)
 	}
+}
+
+// Bool tests: True/False/EQ are equality with the stated value, in both modes. In Validate false is the zero value of an optional node (no test runs).
+func c20Bool(op string) {
+	x := v.Bool("x")
+	p := v.Bool("p")
+	sc := z.Bool()
+	want := p
+	switch op {
+	case "True":
+		sc, want = sc.True(), true
+	case "False":
+		sc, want = sc.False(), false
+	default:
+		sc = sc.EQ(p)
+	}
+	var d bool
+	errs := sc.Parse(x, &d)
+	c20Verdict(errs, x == want, "eq")
+	v.Assert(d == x, "C20:value")
+	d = x
+	errs = sc.Required().Validate(&d)
+	if !x {
+		v.Cover("absent")
+		v.Assert(len(errs) == 1 && errs[0].Code == "required", "C20:absent")
+		return
+	}
+	c20Verdict(errs, x == want, "eq")
 }
